@@ -30,7 +30,7 @@ MAGIC = {".gz": b"\x1f\x8b", ".bz2": b"BZh", ".xz": b"\xfd7zXZ\x00"}
 OPENERS = {".gz": gzip.open, ".bz2": bz2.open, ".xz": lzma.open}
 SPECIAL = ["a,b", 'q"q', "l\nm", "r\r\ns", "c\rd", "t\tu", "p;q", "v|w", " lead", "trail ", "'", "é", "日本", "😀", "x" * 60]
 LATIN = ["a,b", 'q"q', "l\nm", "r\r\ns", "c\rd", "t\tu", "p;q", "v|w", " lead", "trail ", "'", "é", "ÿ"]
-NAMES = ["a", "b", "c d", "é", "x,y", "n1", 'q"', "items"]
+NAMES = ["a", "b", "c d", "é", "x,y", "n1", 'q"', "items", " a", "a ", " b ", "A"]      # padded names differ from unpadded ones
 
 KINDS = {
     "pickle": ["f", "i", "b", "s", "u", "d", "t", "td", "o", "ob", "f32", "i32"],
@@ -108,6 +108,12 @@ def _frame_plan(draw, max_rows):
             vals = [repl[kind] if build.plan_isna(kind, v) else v for v in vals]
         cols.append({"name": nm, "kind": kind, "vals": vals})
     plan = {"obj": "frame", "fmt": fmt, "suffix": suffix, "opts": opts, "frame": {"n": n, "cols": cols}}
+    if n >= 2 and draw(st.integers(0, 3)) == 0:
+        # history: the same frame object is written once (this or another format), two cells of a column are swapped in
+        # place, and only then comes the write that is read back: the file must show the frame as it is now
+        plan["rewrite"] = {"fmt": draw(st.sampled_from([fmt, fmt, "csv", "parquet", "json", "pickle"])),
+                           "swaps": [[draw(st.integers(0, k - 1)), draw(st.integers(0, n - 1)), draw(st.integers(0, n - 1))]
+                                     for _ in range(draw(st.integers(1, 2)))]}
     if fmt in ("csv", "json") and draw(st.integers(0, 3)) == 0:
         # history: an earlier write of another frame with other options in the same process
         plan["prior"] = {"header": draw(st.booleans()), "sep": draw(st.sampled_from([",", ";", "|"])),
@@ -213,6 +219,24 @@ def check(plan, ctx):
         return _check_lod(plan, ctx)
     fp, fmt, suffix, opts = plan["frame"], plan["fmt"], plan["suffix"], dict(plan["opts"])
     data = build.frame(fp, rid=None)
+    if plan.get("rewrite"):
+        rw = plan["rewrite"]
+        first = ctx.path("first" + EXT.get(rw["fmt"], "." + rw["fmt"]))
+        try:
+            getattr(data, "write_" + rw["fmt"])(first)
+        except Exception:
+            ctx.cls("first_write_in_another_format_failed")     # e.g. names the other format cannot hold: not the subject here
+        fp = {"n": fp["n"], "cols": [dict(c, vals=list(c["vals"])) for c in fp["cols"]]}
+        for j, r1, r2 in rw["swaps"]:
+            c = fp["cols"][j]
+            c["vals"][r1], c["vals"][r2] = c["vals"][r2], c["vals"][r1]
+            col = data[c["name"]]
+            tmp = np.array(col[r1:r1 + 1]).copy()
+            col[r1] = col[r2]
+            col[r2] = tmp[0]
+        if build.snap_frame(data) != build.snap_frame(build.frame(fp, rid=None)):
+            raise RuntimeError("builder: in-place swap does not match the plan")
+        ctx.cls("written_again_after_in_place_edit")
     src = build.table(data)
     before = build.snap_frame(data)
     names = list(src)
